@@ -103,11 +103,60 @@ def residual_class(c, v):
     line = lines[v['row'] - 1] if 1 <= v['row'] <= len(lines) else ''
     if v['title'] == 'non-raw-regex-pattern' and literal_unconvertible(line, v['col']):
         return 'non-raw-regex-pattern:literal-has-no-raw-equivalent'
-    if v['title'] == 'use-assignment-operator':
-        ch = line[v['col'] - 1:v['col']]
-        if ch != '=':
-            return 'use-assignment-operator:operator-and-value-on-different-rows'
+    if v['title'] == 'use-assignment-operator' and v.get('head_fallback'):
+        return 'use-assignment-operator:operator-and-value-on-different-rows'
     return None
+
+
+def binary_runs(ctx, corpus_sets, cli, report):
+    """regal fix --force on disk must finish under a generous timeout and leave the files Fixer.Fix computed in memory"""
+    import shutil, subprocess
+    regal = vlib.build_regal(ctx)
+    for n, c in enumerate(corpus_sets):
+        files = files_plain_bytes(c['files'])
+        if any(p.startswith('/ws/v0/') for p in files) or c['err']:
+            continue   # the v0 root needs a configuration file: covered in process only
+        root = os.path.join(ctx.tmp, 'cli_%d' % n, 'ws')
+        for p, b in files.items():
+            q = os.path.join(root, os.path.relpath(p, '/ws'))
+            os.makedirs(os.path.dirname(q), exist_ok=True)
+            open(q, 'wb').write(b)
+        os.makedirs(os.path.join(root, '.regal'), exist_ok=True)
+        open(os.path.join(root, '.regal', 'config.yaml'), 'w').write('rules: {}\n')
+        cmd = [regal, 'fix', '--force', '--disable-all', '--on-conflict', c['mode']]
+        for r in c['rules']:
+            cmd += ['--enable', LONG[r]]
+        cmd.append(root)
+        cli['run'] += 1
+        try:
+            p = subprocess.run(cmd, cwd=root, stdout=subprocess.PIPE, stderr=subprocess.STDOUT, timeout=300)
+        except subprocess.TimeoutExpired:
+            cli['timeouts'] += 1
+            report('non-termination', c, None, {'what': 'regal fix --force (the binary) still running after 300 s', 'cmd': cmd[1:-1]})
+            continue
+        got = {}
+        for d, _, fs in os.walk(root):
+            if '.regal' in d:
+                continue
+            for f in fs:
+                q = os.path.join(d, f)
+                got['/ws/' + os.path.relpath(q, root)] = open(q, 'rb').read()
+        want = files if c['conflicts'] else files_plain_bytes(c['final'])
+        if got != want:
+            cli['diffs'] += 1
+            report('binary-differs-from-fixer', c, None, {
+                'what': 'files on disk after regal fix --force differ from what Fixer.Fix computed in memory',
+                'on_disk': {k: v.decode('utf-8', 'backslashreplace') for k, v in got.items()}, 'exit': p.returncode,
+                'output': p.stdout.decode('utf-8', 'replace')[-600:]})
+        shutil.rmtree(os.path.dirname(root), ignore_errors=True)
+
+
+def files_plain_bytes(fs):
+    return {f['path']: base64.b64decode(f['content']) for f in fs or []}
+
+
+LONG = {'uao': 'use-assignment-operator', 'nwc': 'no-whitespace-comment', 'nrr': 'non-raw-regex-pattern',
+        'fmt': 'opa-fmt', 'v1': 'use-rego-v1', 'dpm': 'directory-package-mismatch'}
 
 
 def run_harness(ctx, h, replay=None):
@@ -166,6 +215,11 @@ def run(ctx):
                 report('violation-remains', c, rc_, {'violation': v, 'what': 'a violation of an enabled fixable rule is still reported after fix'})
         if c['second_changed'] or c.get('second_err'):
             report('second-fix-changes', c, None, {'what': 'fixing the result again changed it (or failed: %s)' % c.get('second_err', '')})
+
+    # ---- thorough tier: the real binary on the regression file sets (files on disk after regal fix --force) -----
+    cli = {'run': 0, 'timeouts': 0, 'diffs': 0}
+    if not ctx.quick() and not ctx.replay:
+        binary_runs(ctx, [c for c in sets if c['src'].startswith('corpus:')], cli, report)
 
     # ---- correspondence: one iteration of the model loop per recorded iteration ---------------------------------
     E = Enc()
@@ -243,7 +297,7 @@ def run(ctx):
         'conflicts_reported': sum(1 for c in sets if c['conflicts']),
         'rule_subsets': dict(hist), 'modes': dict(collections.Counter(c['mode'] for c in sets)),
         'errors': dict(collections.Counter(c['err'] or 'none' for c in sets)),
-        'mismatch_model_iteration': len(r1), 'predicate_failures': dict(classes),
+        'mismatch_model_iteration': len(r1), 'predicate_failures': dict(classes), 'binary_runs_on_corpus': cli,
         'samples': [{'files': files_plain(c['files']), 'rules': c['rules'], 'mode': c['mode'], 'iterations': c['iters'],
                      'result': files_plain(c['final'])} for c in nontrivial[:2]],
         'exhaustive': False,
